@@ -1884,6 +1884,7 @@ class locked_ref:
         self._file: _GitFile | None = None
         self._realname: Ref | None = None
         self._deleted = False
+        self._written = False
 
     def __enter__(self) -> Self:
         """Enter the context manager and acquire the lock.
@@ -1921,7 +1922,10 @@ class locked_ref:
           traceback: Traceback if an exception occurred
         """
         if self._file:
-            if exc_type is not None or self._deleted:
+            # Only rename the lock file into place if something was written
+            # to it: a block that merely read or compared the ref must leave
+            # it alone instead of replacing it with an empty file.
+            if exc_type is not None or self._deleted or not self._written:
                 self._file.abort()
             else:
                 self._file.close()
@@ -1966,6 +1970,7 @@ class locked_ref:
         self._file.truncate()
         self._file.write(new_ref + b"\n")
         self._deleted = False
+        self._written = True
 
     def set_symbolic_ref(self, target: Ref) -> None:
         """Make this ref point at another ref.
@@ -1981,6 +1986,7 @@ class locked_ref:
         self._file.truncate()
         self._file.write(SYMREF + target + b"\n")
         self._deleted = False
+        self._written = True
 
     def delete(self) -> None:
         """Delete the ref file while holding the lock."""
